@@ -56,6 +56,17 @@ theorem C14_urlencode_roundtrip (ps : List (Bytes × Bytes))
 example : parseQsl (urlencode [([97, 38], [61, 32, 43]), ([98], [35, 63])]) = [([97, 38], [61, 32, 43]), ([98], [35, 63])] := by
   decide
 
+/-- The dictionary view (`parse_qs`): parameters with pairwise different names come back as one
+    single-valued entry each, in order. -/
+theorem C14_parseQs_urlencode (ps : List (Bytes × Bytes))
+    (h : ∀ kv ∈ ps, IsBytes kv.1 ∧ IsBytes kv.2 ∧ kv.2 ≠ []) (hnd : (ps.map (·.1)).Nodup) :
+    parseQs (urlencode ps) = ps.map (fun kv => (kv.1, [kv.2])) := by
+  unfold parseQs
+  rw [urlencode_roundtrip ps h, foldl_qsInsert ps [] hnd (by simp)]
+  simp
+
+example : parseQs (urlencode [([97], [49]), ([98], [50, 38])]) = [([97], [[49]]), ([98], [[50, 38]])] := by decide
+
 /-- The codec models satisfy the specifications the driver evaluates on the implementation. -/
 theorem C14_model_meets_spec_codecs (s : Bytes) (h : IsBytes s) :
     specB64 s (b64encode s) = true ∧ specEscape s (htmlEscape s) = true ∧ specQuote s (quotePlus s) = true := by
@@ -277,10 +288,11 @@ example : locOk [104, 47, 63, 97, 61, 98] = true ∧ locOk [104, 47] = true ∧ 
 /-- The artifact URL (`use_http_artifact`): same statement for the `SAMLart` parameter. -/
 theorem C14_artifact_url_partial (art loc rs url : Bytes) (hart : IsBytes art) (hne : art ≠ []) (hrs : IsBytes rs)
     (hloc : locOk loc = true) (h : artifactUrl true art loc rs = some url) :
-    specUrl loc (withRelay (sSAMLart, art) rs) url = true := by
+    specUrl loc (withRelay (sSAMLart, art) rs) url = true ∧ specArtifactUrl art loc rs url = true := by
   simp only [artifactUrl, glueUrl, if_true] at h
   cases Option.some.inj h
-  exact glue_spec loc _ _ (urlencode_no_hash _) (withRelay_roundtrip sSAMLart art rs isBytes_SAMLart hart hne hrs) hloc
+  have := glue_spec loc _ _ (urlencode_no_hash _) (withRelay_roundtrip sSAMLart art rs isBytes_SAMLart hart hne hrs) hloc
+  exact ⟨this, by simp [specArtifactUrl, this]⟩
 
 /-- `http_redirect_message(typ="SAMLart")`: the artifact travels verbatim. -/
 theorem C14_redirect_art_roundtrip (deflate : Bytes → Bytes) (inflate : Bytes → Option Bytes) (art loc rs url : Bytes)
